@@ -116,6 +116,9 @@ func TestC17Subs(t *testing.T) {
 		nstim := 20 + r.Intn(130)
 		applied := 0
 		var trace []string
+		var pendingUnsub chan struct{} // an armed "unsubscribe during delivery" that has not fired yet
+		var victim *subRec
+		disarm := func() {}
 		for i := 0; i < nstim; i++ {
 			// subscription changes from other goroutines while events flow
 			switch r.Intn(25) {
@@ -139,6 +142,35 @@ func TestC17Subs(t *testing.T) {
 					s.gone, s.goneAt = true, s.log.Len()
 				}
 			}
+			// an unsubscribe that lands WHILE an event is being delivered: an early subscriber's callback lets
+			// another goroutine unsubscribe a later one (not the last) and lingers a little; every remaining
+			// subscriber must still be called exactly once for that event
+			if pendingUnsub == nil && r.Intn(12) == 0 {
+				var live []*subRec
+				for _, sb := range subs {
+					if !sb.gone && sb.perChid == nil {
+						live = append(live, sb)
+					}
+				}
+				if len(live) >= 3 {
+					first := live[0]
+					victim = live[1+r.Intn(len(live)-2)]
+					prevInner := first.log.Inner
+					pendingUnsub = make(chan struct{})
+					var once sync.Once
+					first.log.Inner = func(ev datatransfer.Event, st datatransfer.ChannelState) {
+						if prevInner != nil {
+							prevInner(ev, st)
+						}
+						once.Do(func() {
+							go func() { defer close(pendingUnsub); victim.unsub() }()
+							doubles.Yield(300)
+						})
+					}
+					disarm = func() { first.log.Inner = prevInner }
+					c.Count("unsubscribe_during_delivery_armed", 1)
+				}
+			}
 			ch := gen.Pick(r, chs)
 			v0 := f.view(ch.chid)
 			if v0 == nil {
@@ -155,8 +187,26 @@ func TestC17Subs(t *testing.T) {
 			settle()
 			applied++
 			trace = append(trace, s.name)
+			if pendingUnsub != nil {
+				select {
+				case <-pendingUnsub:
+					victim.gone, victim.goneAt = true, victim.log.Len()
+					pendingUnsub = nil
+					c.Count("unsubscribed_during_delivery", 1)
+				default: // no event yet: the callback has not run, nothing was unsubscribed; it stays armed
+				}
+			}
 		}
 		settle()
+		if pendingUnsub != nil { // still armed at the end of the script: it fired just now, or is taken off
+			select {
+			case <-pendingUnsub:
+				victim.gone, victim.goneAt = true, victim.log.Len()
+			default:
+				disarm()
+			}
+			pendingUnsub = nil
+		}
 		// a transfer opened (with its own subscriber) while another channel's terminal event is being
 		// delivered to that channel's per-transfer subscriber must not lose its subscription
 		for _, ch := range chs {
